@@ -125,7 +125,12 @@ def caller_array_hazards(fnode, array_params=ARRAY_PARAMS):
                         vals = node.value.elts if isinstance(node.value, (ast.Tuple, ast.List)) else [node.value]
                         for v in vals:
                             if isinstance(v, ast.Name) and v.id in alias and v.id not in rebound_fresh and isinstance(t, ast.Attribute):
-                                hazards.append(("a caller-supplied array is retained by reference", node))
+                                # a constructor filling in the object it is creating retains nothing beyond that object's
+                                # life; an attribute store anywhere else lands on something that existed before the call
+                                in_ctor = getattr(fnode, "name", "") in ("__init__", "__new__") and isinstance(t.value, ast.Name) \
+                                    and fnode.args.args and t.value.id == fnode.args.args[0].arg
+                                if not in_ctor:
+                                    hazards.append(("a caller-supplied array is retained by reference", node))
             elif isinstance(node, ast.Call) and isinstance(node.func, ast.Attribute) and node.func.attr in INPLACE_METHODS \
                     and isinstance(node.func.value, ast.Name) and node.func.value.id in alias and node.func.value.id not in rebound_fresh:
                 hazards.append(("in-place method on a caller-supplied array", node))
